@@ -13,6 +13,7 @@ import (
 	"servitor/pub"
 	"servitor/verifkit"
 	"servitor/verifsim"
+	"runtime"
 	"strings"
 	"sync"
 	"sync/atomic"
@@ -40,13 +41,25 @@ func TestMain(m *testing.M) {
 			f.Write(append(data, '\n'))
 			f.Close()
 		}
+		if gate := os.Getenv("VERIF_HOOK_GATE"); gate != "" {
+			/* held back until the driver opens the gate */
+			for waited := 0; waited < 3000; waited++ {
+				if _, err := os.Stat(gate); err == nil {
+					break
+				}
+				time.Sleep(10 * time.Millisecond)
+			}
+		}
 		if ms := os.Getenv("VERIF_HOOK_SLEEP_MS"); ms != "" {
 			var n int
 			fmt.Sscanf(ms, "%d", &n)
 			time.Sleep(time.Duration(n) * time.Millisecond)
 		}
 		/* tell the driver that the hook is about to exit */
-		os.WriteFile(dump+".done", []byte("x"), 0o644)
+		if f, err := os.OpenFile(dump+".done", os.O_CREATE|os.O_WRONLY|os.O_APPEND, 0o644); err == nil {
+			f.Write([]byte("x\n"))
+			f.Close()
+		}
 		if os.Getenv("VERIF_HOOK_FAIL") != "" {
 			os.Stdout.WriteString("hook failed on purpose\n")
 			os.Exit(7)
@@ -235,6 +248,77 @@ type verifSession struct {
 	mu      sync.Mutex
 	pending []verifkit.M
 	emitFrames bool
+	/* held sessions: media hooks do not end until the driver opens their gate ("hookexit") */
+	held    bool
+	gate    string
+	epoch   int
+	started int
+}
+
+/* hook completions in flight: goroutines started by openExternally that have not finished yet */
+func verifHookGoroutines() int {
+	buf := make([]byte, 1<<20)
+	n := runtime.Stack(buf, true)
+	return strings.Count(string(buf[:n]), "openExternally.func1(")
+}
+
+/* held sessions: the calls recorded so far by hook processes that are still waiting at their gate; waits
+   until every hook whose goroutine exists has recorded itself */
+func (v *verifSession) heldCalls() []verifkit.M {
+	want := verifHookGoroutines()
+	var lines []string
+	for waited := 0; waited < 1500; waited++ {
+		data, _ := os.ReadFile(v.dump)
+		lines = strings.Split(strings.TrimSpace(string(data)), "\n")
+		if len(lines) == 1 && lines[0] == "" {
+			lines = nil
+		}
+		if len(lines) >= want {
+			break
+		}
+		time.Sleep(2 * time.Millisecond)
+	}
+	fresh := lines[minInt(v.started, len(lines)):]
+	v.started = len(lines)
+	return v.parseCalls(fresh)
+}
+
+func minInt(a, b int) int {
+	if a < b {
+		return a
+	}
+	return b
+}
+
+/* a new gate for the hooks started from now on */
+func (v *verifSession) newGate() {
+	v.epoch++
+	v.gate = fmt.Sprintf("%s/hookgate-%d-%d-%d", os.TempDir(), os.Getpid(), v.sid, v.epoch)
+	os.Remove(v.gate)
+	os.Setenv("VERIF_HOOK_GATE", v.gate)
+}
+
+/* let every held hook end, wait until they have ended and their exit has been noticed */
+func (v *verifSession) releaseHooks(wait bool) {
+	os.WriteFile(v.gate, []byte("open"), 0o644)
+	if wait && v.started > 0 {
+		for waited := 0; waited < 1000; waited++ {
+			data, _ := os.ReadFile(v.dump + ".done")
+			if strings.Count(string(data), "\n") >= v.started {
+				break
+			}
+			time.Sleep(5 * time.Millisecond)
+		}
+		/* the processes have announced their exit; CombinedOutput returns and each completion takes the lock */
+		for waited := 0; waited < 1500 && verifHookGoroutines() > 0; waited++ {
+			time.Sleep(2 * time.Millisecond)
+		}
+	}
+	os.Remove(v.dump)
+	gate := v.gate
+	time.AfterFunc(5*time.Second, func() { os.Remove(gate) })
+	os.Remove(v.dump + ".done")
+	v.started = 0
 }
 
 /* the pages of the history, through the public API of a value copy */
@@ -318,7 +402,7 @@ func (v *verifSession) settle(limit time.Duration) bool {
 	for time.Now().Before(deadline) {
 		quiet := v.w.sim.Open() == 0
 		v.s.m.Lock()
-		if v.s.mode == loading || v.s.mode == opening {
+		if v.s.mode == loading || (v.s.mode == opening && !v.held) {
 			quiet = false
 		}
 		pages, _ := verifPages(v.s)
@@ -382,11 +466,15 @@ func (v *verifSession) observe() verifkit.M {
 func (v *verifSession) hookCalls() []verifkit.M {
 	data, err := os.ReadFile(v.dump)
 	os.Remove(v.dump)
-	calls := []verifkit.M{}
 	if err != nil {
-		return calls
+		return []verifkit.M{}
 	}
-	for _, line := range strings.Split(strings.TrimSpace(string(data)), "\n") {
+	return v.parseCalls(strings.Split(strings.TrimSpace(string(data)), "\n"))
+}
+
+func (v *verifSession) parseCalls(lines []string) []verifkit.M {
+	calls := []verifkit.M{}
+	for _, line := range lines {
 		var c struct {
 			Argv  []string `json:"argv"`
 			Stdin string   `json:"stdin"`
@@ -498,7 +586,13 @@ func TestVerifKeys(t *testing.T) {
 	for _, toks := range in.Sessions {
 		sid++
 		v := verifNewSession(w, out, sid, in.Frames && sid%in.Every == 0)
-		start := strings.TrimPrefix(toks[0], "start_")
+		v.held = strings.HasPrefix(toks[0], "hstart_")
+		os.Unsetenv("VERIF_HOOK_GATE")
+		os.Remove(v.dump + ".done")
+		if v.held {
+			v.newGate()
+		}
+		start := strings.TrimPrefix(strings.TrimPrefix(toks[0], "h"), "start_")
 		target := map[string]string{"a": w.startA, "p": w.startP}[start]
 		lens := verifkit.M{}
 		for _, macro := range []string{"open_a", "open_p", "open_bad", "feed_f", "feed_u", "bad_cmd"} {
@@ -513,7 +607,7 @@ func TestVerifKeys(t *testing.T) {
 			err = v.s.Subcommand("open", w.h.URL(target))
 		}
 		if err != nil || !v.settle(8*time.Second) {
-			out.Emit(verifkit.M{"ev": "key", "k": "start", "obs": v.observe(), "hooks": []verifkit.M{}, "panic": false, "wedged": true, "frames": v.frames, "unheld": v.unheld, "overlap": v.overlap})
+			out.Emit(verifkit.M{"ev": "key", "k": "start", "obs": v.observe(), "hooks": []verifkit.M{}, "held": false, "panic": false, "wedged": true, "frames": v.frames, "unheld": v.unheld, "overlap": v.overlap})
 			continue
 		}
 		v.hookCalls()
@@ -522,8 +616,25 @@ func TestVerifKeys(t *testing.T) {
 				/* a terminal resize between keys: no effect on the abstract state */
 				v.resize(40+rng.Intn(80), 2+rng.Intn(40))
 			}
+			if tok == "hookexit" {
+				v.releaseHooks(true)
+				wedged := !v.settle(8 * time.Second)
+				v.newGate()
+				out.Emit(verifkit.M{"ev": "hookexit", "obs": v.observe(), "wedged": wedged})
+				v.flushFrames()
+				if wedged {
+					break
+				}
+				continue
+			}
 			panicked, what, wedged := v.press(tok, w.expand(tok))
-			ev := verifkit.M{"ev": "key", "k": tok, "hooks": v.hookCalls(), "panic": panicked, "wedged": wedged,
+			var calls []verifkit.M
+			if v.held {
+				calls = v.heldCalls()
+			} else {
+				calls = v.hookCalls()
+			}
+			ev := verifkit.M{"ev": "key", "k": tok, "hooks": calls, "held": v.held, "panic": panicked, "wedged": wedged,
 				"frames": atomic.LoadInt64(&v.frames), "unheld": atomic.LoadInt64(&v.unheld), "overlap": atomic.LoadInt64(&v.overlap)}
 			if panicked {
 				ev["what"] = what
@@ -536,6 +647,10 @@ func TestVerifKeys(t *testing.T) {
 			if panicked || wedged {
 				break
 			}
+		}
+		if v.held {
+			v.releaseHooks(true)
+			os.Unsetenv("VERIF_HOOK_GATE")
 		}
 		v.flushFrames()
 		verifEmitConns(out, w, &connMark)
